@@ -135,8 +135,8 @@ P["C11"] = {
 P["C12"] = {
     "common": {"validate": 4, "ignore_kinds": ["alloc", "unwind"], "race": True, "runs": [{"pattern": "verifHarness_C12_", "label_filter": "C12:"}]},
     "thorough": {"validate": 12},
-    "bounds": "what is decided: interleavings are not explored; the claim is discharged through the ownership / lockset theorem. For all inputs within the bounds, each operation - decode through a shared codec tree into private memory (with the pool handing out a fresh or a recycled bank), encode through a shared codec tree, Schema.Codec and SchemaForType (registry lookups), Register / RegisterSchema (first and repeated registration), ReadFile of a 2-record file of every codec, Close of a bank handed over from elsewhere, parsing a timestamp with an arbitrary numeric zone offset (zone cached or not) - (i) stores only into memory it allocated or was handed (sync.Pool.Get hands over), (ii) only reads shared codec trees and package globals, (iii) touches registry / schemaRegistry / tzMap (map header and value cells) only while holding the guarding mutex, in write mode for stores. Under these three facts any two operations are race-free under every schedule and each computes a function of its private inputs and the registry contents, which the harnesses also compare with the sequential result.",
-    "outside": "races inside the standard library, sync.Pool, snappy or flate; result-equivalence under concurrent registration of the same type (not independent operations); native replay: the operation runs on two goroutines at once under the race detector (go test -race), whose happens-before analysis confirms an unsynchronised pair without timing luck; a finding the detector does not report stays engine-level (UB-class)",
+    "bounds": "what is decided: interleavings are not explored; the claim is discharged through the ownership / lockset theorem. For all inputs within the bounds, each operation - decode through a shared codec tree into private memory (with the pool handing out a fresh or a recycled bank; one catalogue struct, and every codec kind of the C05 schema list - null, primitives, fixed, record, enum, array, map, nullable and general unions - as a field, behind a pointer, as array items and as map values, 8 target shapes), encode through a shared codec tree, Schema.Codec and SchemaForType (registry lookups), Register / RegisterSchema (first and repeated registration), ReadFile of a 2-record file of every codec, Close of a bank handed over from elsewhere, parsing a timestamp with an arbitrary numeric zone offset (zone cached or not) - (i) stores only into memory it allocated or was handed (sync.Pool.Get hands over), (ii) only reads shared codec trees and package globals, (iii) touches registry / schemaRegistry / tzMap (map header and value cells) only while holding the guarding mutex, in write mode for stores. Under these three facts any two operations are race-free under every schedule and each computes a function of its private inputs and the registry contents, which the harnesses also compare with the sequential result.",
+    "outside": "sync/atomic accesses are exempt from the store rule; for them only the lost-update pattern is decided (an atomic pointer Store/Swap into a shared location from which the same operation earlier atomically loaded a non-nil pointer, with no lock held and no compare-and-swap); sync.Map is a sequential association-list model; races inside the standard library, sync.Pool, snappy or flate; result-equivalence under concurrent registration of the same type (not independent operations); native replay: the operation runs on two goroutines at once under the race detector (go test -race), whose happens-before analysis confirms an unsynchronised pair without timing luck; a finding the detector does not report stays engine-level (UB-class)",
     "assumptions": A_CORE + A_FILE + A_TIME,
 }
 P["C13"] = {
